@@ -429,16 +429,25 @@ func hotDict(k int) lib.Dict {
 }
 
 // secret dictionaries for C02: same emptiness, same line-feed skeleton, disjoint sentinel alphabets
-func secretDict(which int) lib.Dict {
+func secretDict(which int) lib.Dict { return secretDictV(which, 0) }
+
+// secretDictV: variant 1 puts what an attacker would put into a secret in front of it -- a stray marker lead byte
+// directly before an end marker, a start marker, a truncated marker -- the same in both instantiations, so that the
+// two still differ only in the sentinel text (and whatever survives redaction is still named by its sentinel)
+func secretDictV(which, variant int) lib.Dict {
 	return func(id int) string {
 		nl := ""
 		if id%3 == 0 {
 			nl = "\n"
 		}
-		if which == 0 {
-			return fmt.Sprintf("SECa%dxx%sAA", id, nl)
+		pre := ""
+		if variant == 1 {
+			pre = []string{"\xe2\u203a ", "\xe2\x80\u203a", "\u2039\u203a\u203a", "\u203a\xe2\x80", "x\xe2"}[id%5]
 		}
-		return fmt.Sprintf("SEKRb%dy%sBBB", id, nl)
+		if which == 0 {
+			return fmt.Sprintf("%sSECa%dxx%sAA", pre, id, nl)
+		}
+		return fmt.Sprintf("%sSEKRb%dy%sBBB", pre, id, nl)
 	}
 }
 
@@ -616,43 +625,48 @@ func judgeC02(rep *lib.Report, c *lib.Ctx, ln *printerLine, kase json.RawMessage
 	}
 	pub := lib.Publicity(ln.C.Ts)
 	lib.MarkStarOperandsPublic(pub, c.Subst(ln.C.F), ln.C.Ts)
-	var outs [2][]byte
-	base := 0
-	for w := 0; w < 2; w++ {
-		sec := secretDict(w)
-		d := func(id int) string {
-			if pub[id] {
-				return lib.PlainDict(id)
+	for variant := 0; variant < 2; variant++ {
+		if variant == 1 && lib.HasKind(ln.C.Ts, "rstring", "rbytes") {
+			continue // (a redactable operand built around such a payload would not be a redactable)
+		}
+		var outs [2][]byte
+		base := 0
+		for w := 0; w < 2; w++ {
+			sec := secretDictV(w, variant)
+			d := func(id int) string {
+				if pub[id] {
+					return lib.PlainDict(id)
+				}
+				return sec(id)
 			}
-			return sec(id)
+			var sc *lib.Ctx
+			if w == 0 {
+				sc = lib.NewCtx(d)
+				base = sc.HandleBase
+			} else {
+				sc = lib.NewCtxLike(d, base)
+			}
+			sc.SecretInts = w + 1
+			sc.Public = pub
+			r := runCase(sc, ln.C)
+			sc.Release()
+			rep.AddEval(1)
+			if r.Panicked {
+				return
+			}
+			outs[w] = []byte(redact.RedactableBytes(r.Out).Redact())
 		}
-		var sc *lib.Ctx
-		if w == 0 {
-			sc = lib.NewCtx(d)
-			base = sc.HandleBase
-		} else {
-			sc = lib.NewCtxLike(d, base)
+		if !bytes.Equal(outs[0], outs[1]) {
+			rep.Violate("printer:interference", fmt.Sprintf("%s: redacted outputs differ: %q vs %q", caseString(c, ln.C), outs[0], outs[1]), kase)
 		}
-		sc.SecretInts = w + 1
-		sc.Public = pub
-		r := runCase(sc, ln.C)
-		sc.Release()
-		rep.AddEval(1)
-		if r.Panicked {
-			return
-		}
-		outs[w] = []byte(redact.RedactableBytes(r.Out).Redact())
-	}
-	if !bytes.Equal(outs[0], outs[1]) {
-		rep.Violate("printer:interference", fmt.Sprintf("%s: redacted outputs differ: %q vs %q", caseString(c, ln.C), outs[0], outs[1]), kase)
-	}
-	// a sentinel of instantiation w in its own output names the leak; the same digits in the OTHER instantiation's
-	// output are public text that happens to look alike (object handles are running numbers), not a leak
-	sentinels := [2][]string{{"SECa", "7771", "1e5b", "1E5B"}, {"SEKRb", "7772", "1e5c", "1E5C"}}
-	for w := 0; w < 2; w++ {
-		for _, s := range sentinels[w] {
-			if bytes.Contains(outs[w], []byte(s)) && !bytes.Contains(outs[1-w], []byte(s)) {
-				rep.Violate("printer:leak", fmt.Sprintf("%s: sentinel %q of an unsafe value survives redaction: %q", caseString(c, ln.C), s, outs[w]), kase)
+		// a sentinel of instantiation w in its own output names the leak; the same digits in the OTHER instantiation's
+		// output are public text that happens to look alike (object handles are running numbers), not a leak
+		sentinels := [2][]string{{"SECa", "7771", "1e5b", "1E5B"}, {"SEKRb", "7772", "1e5c", "1E5C"}}
+		for w := 0; w < 2; w++ {
+			for _, s := range sentinels[w] {
+				if bytes.Contains(outs[w], []byte(s)) && !bytes.Contains(outs[1-w], []byte(s)) {
+					rep.Violate("printer:leak", fmt.Sprintf("%s: sentinel %q of an unsafe value survives redaction: %q", caseString(c, ln.C), s, outs[w]), kase)
+				}
 			}
 		}
 	}
